@@ -134,6 +134,28 @@ def run(prog, R):
     for o in prec["assignment_ops"]:
         if o in bp:
             R.ob("C04.3-assignment-rhs", o, bp[o] < lo, prog.body(C05.CUR_OP).at, f"{o}: binding power {bp[o]}, lowest binary operator {lo}: `x {o} a + b;` must take `a + b` as right-hand side")
+    # ---- C04.3 longest operator first: where one composite operator is a prefix of another (`>>` / `>>=`, `<<` / `<<=`,
+    # `..` / `..=`), current_op returns the shorter one only after the test for the longer one failed; otherwise the
+    # longer operator is split (`a >>= 1` read as `a >> = 1`, a syntax error on a valid program)
+    from sym import SymExec as _SE, show as _show, deep_strip as _ds
+    co_ = prog.body(C05.CUR_OP)
+    if co_ is None:
+        R.ob("ANCHOR", C05.CUR_OP, False)
+    else:
+        rows_ = []
+        for q_ in _SE(prog, co_, max_visits=1, max_paths=5000).paths():
+            if "__diverged__" in q_.env:
+                continue
+            ret_ = _show(_ds(q_.env.get(0)))
+            k_ = ret_.split("SyntaxKind::")[1].split(",")[0].strip(") ") if "SyntaxKind::" in ret_ else None
+            cs_ = {(_show(_ds(c[1]))[len("at(p, SyntaxKind::"):-1]): (c[2][0] == "ne") for c in q_.conds if c[0] == "switch" and _show(_ds(c[1])).startswith("at(p, SyntaxKind::")}
+            rows_.append((k_, cs_))
+        kinds_ = {k for k, _ in rows_ if k}
+        pairs_ = sorted((k, k + "EQ") for k in kinds_ if k + "EQ" in kinds_ and len(k) > 2 and any(cs.get(k) for kk, cs in rows_ if kk == k))
+        badp_ = [(k, kl) for k, kl in pairs_ for kk, cs in rows_ if kk == k and cs.get(kl) is not False]
+        R.ob("C04.3-longest-operator-first", "a composite operator that is a prefix of another is returned only after the longer one was ruled out", len(pairs_) >= 3 and not badp_, co_.at,
+             f"pairs {pairs_}: each path returning the shorter operator has tested at(longer) == false" if not badp_ else
+             f"{sorted(set(badp_))}: the shorter operator is returned without (or before) the test for the longer one, so the longer operator is split into the shorter one and `=`")
     # ---- C04.4 list end tokens per flavor
     ALE = "oq3_parser::grammar::params::at_list_end_token"
     fl = prog.enum_variants("oq3_parser::grammar::params::DefFlavor")
